@@ -47,16 +47,18 @@ def run_one(sid, props=None, tier='quick'):
     finally:
         sh('git -C %s checkout -- .' % REPO)
     assert repo_clean()
-    out = {'id': sid, 'tier': tier, 'results': res, 'caught_by': [p for p, v in res.items() if v['exit'] == 1]}
-    prev = {}
+    head = sh('git -C %s rev-parse --short HEAD' % VERIF).stdout.strip()
+    out = {'id': sid, 'tier': tier, 'results': res, 'caught_by': [p for p, v in res.items() if v['exit'] == 1],
+           'verif_commit': head}
     rp = os.path.join(d, 'result.json')
-    if os.path.exists(rp):
-        prev = json.load(open(rp))
-        prev.setdefault('results', {}).update(res)
-        prev['caught_by'] = sorted(set(prev.get('caught_by', [])) | set(out['caught_by']))
-        out = prev
-    json.dump(out, open(rp, 'w'), indent=1)
-    return out
+    allr = json.load(open(rp)) if os.path.exists(rp) else {}
+    cur = allr.get('current', {'results': {}, 'caught_by': []})
+    cur['results'].update(res)
+    cur['caught_by'] = sorted(p for p, v in cur['results'].items() if v['exit'] == 1)
+    cur['verif_commit'] = head
+    allr['current'] = cur
+    json.dump(allr, open(rp, 'w'), indent=1)
+    return cur
 
 
 def table():
@@ -67,9 +69,15 @@ def table():
             continue
         meta = json.load(open(os.path.join(d, 'meta.json')))
         rp = os.path.join(d, 'result.json')
-        res = json.load(open(rp)) if os.path.exists(rp) else {}
-        caught = ', '.join(res.get('caught_by', [])) or ('-' if res else 'not run')
-        ran = ', '.join('%s:%s' % (p, v['exit']) for p, v in res.get('results', {}).items())
+        allr = json.load(open(rp)) if os.path.exists(rp) else {}
+        r1 = allr.get('round1', {})
+        cur = allr.get('current', {})
+        results = dict(r1.get('results', {}))
+        results.update(cur.get('results', {}))
+        res = {'results': results, 'caught_by': sorted(p for p, v in results.items() if v['exit'] == 1)}
+        caught = ', '.join(res.get('caught_by', [])) or ('-' if results else 'not run')
+        first = ', '.join('%s:%s' % (p, v['exit']) for p, v in r1.get('results', {}).items())
+        ran = first + (' -> now ' + ', '.join('%s:%s' % (p, v['exit']) for p, v in cur.get('results', {}).items()) if cur else '')
         rows.append('| %s | %s | %s | %s | %s |' % (sid, meta['property'], meta.get('summary', '')[:110].replace('|', '/'),
                                                    caught, ran))
     print('| seeded change | breaks | what was changed | caught by | checks run (exit) |')
